@@ -965,6 +965,27 @@ theorem genNonQuiescent_hashok {b : Board} (h : wf b = true) :
     ∀ m ∈ genNonQuiescent b, ZobristStep.HashMoveOK b m.f :=
   fun m hm => hashok_of_facts (genNonQuiescent_facts h m hm)
 
+/-- corollary of `GenFacts`: the next e.p. square is set exactly for the pawn double step and is the square stepped over -/
+theorem nextEp_iff {b : Board} {f : MoveF} (h : GenFacts b f) :
+    (f.nextEp ≠ 0 ↔ f.pieceMoved = PAWN ∧ (f.source = f.target + 16 ∨ f.target = f.source + 16)) ∧
+    (f.nextEp ≠ 0 → 2 * f.nextEp = f.source + f.target) := by
+  unfold GenFacts at h
+  obtain ⟨-, -, -, -, -, -, -, -, -, -, -, -, -, -, hcall⟩ := h
+  obtain ⟨hs, ht, -, -, -, -, -, -, -, -, hpawn, hnp, -⟩ := hcall
+  by_cases hp : f.pieceMoved = PAWN
+  · obtain ⟨-, -, -, h4⟩ := hpawn hp
+    by_cases h0 : f.nextEp = 0
+    · rw [if_pos h0] at h4
+      refine ⟨⟨fun h => absurd h0 h, fun ⟨_, hd⟩ => ?_⟩, fun h => absurd h0 h⟩
+      split at h4 <;> omega
+    · rw [if_neg h0] at h4
+      obtain ⟨-, -, -, h5⟩ := h4
+      refine ⟨⟨fun _ => ⟨hp, ?_⟩, fun _ => h0⟩, fun _ => ?_⟩
+      · split at h5 <;> omega
+      · split at h5 <;> omega
+  · have h0 := (hnp hp).2.2
+    exact ⟨⟨fun h => absurd h0 h, fun ⟨h1, _⟩ => absurd h1 hp⟩, fun h => absurd h0 h⟩
+
 #print axioms genPseudo_facts
 #print axioms genNonQuiescent_facts
 #print axioms genPseudo_hashok
